@@ -71,6 +71,17 @@ CLAIMED = {
             "non-termination.",
             "trusted: TLC, abstraction.py, FA.tla IsoExists; wall-clock limit for termination",
             "TLA+ model with nondeterministic pick order (TLC exhaustive) + TLC trace validation"),
+    "C18": ("5/C18, Appendix D",
+            "TLC checks Session.tla - the three constructions at heap level (shared vs copied target-set cells, the "
+            "two hidden default identifier generators, the result's epsilon) - over 256 operand pairs x all histories "
+            "of <= 3 (4) calls: result valid, language = textbook construction on tagged copies (exact), introduced "
+            "state fresh, no exception; the same model with Mode = pinned reproduces the three defects that were "
+            "fixed.  Binding both ways: (G) every behaviour TLC enumerates (13.5k / 111k) is replayed into the real "
+            "functions and each call judged; (J) seeded sessions with random operands (state names q*, p*, four "
+            "epsilon symbols, explicit and default generators, nested results) are judged by TLC.",
+            "trusted: TLC, abstraction.py, FA.tla + the tagged reference constructions of JFA.tla; operands of one "
+            "call share their epsilon symbol",
+            "TLA+ heap-level API model (TLC exhaustive) + spec behaviours replayed into code + TLC trace validation"),
 }
 
 REASON_TODO = "check not built yet (work in progress; see DESIGN.md section 5)"
